@@ -100,6 +100,21 @@ var vxC06Templates = []string{
 	"INSERT INTO t ( a ) VALUES ( 1 ) , ( 2 )",
 	"UPDATE t SET a = 1 , b = 'x'",
 	"DELETE FROM t",
+	"SELECT %I FROM t",
+	"SELECT a FROM %I AS x",
+	"SELECT a FROM t WHERE a NOT LIKE 'x%' AND b NOT ILIKE 'y' AND c NOT IN ( 1 ) AND d NOT BETWEEN 1 AND 2",
+	"SELECT a FROM t WHERE a LIKE 'x' ESCAPE '!' OR b ILIKE 'y'",
+}
+
+// quoted-identifier bodies: two symbolic bytes over characters that do and do not need quoting
+var vxIdentAlphabet = []int{'a', '#', '-', ' ', '$', '(', '1', '_', '.'}
+
+func vxIdentBody() string {
+	b := make([]byte, 2)
+	for k := range b {
+		b[k] = byte(vx.PickInt(vx.Small(len(vxIdentAlphabet)), vxIdentAlphabet))
+	}
+	return string(b)
 }
 
 // string bodies: two symbolic bytes over the alphabet of the escaping rules
@@ -121,6 +136,17 @@ func vxName() string {
 	return string(b)
 }
 
+// vxLowerKeywords lower-cases a template except its %X placeholders.
+func vxLowerKeywords(tpl string) string {
+	out := []byte(strings.ToLower(tpl))
+	for k := 0; k+1 < len(tpl); k++ {
+		if tpl[k] == '%' && tpl[k+1] >= 'A' && tpl[k+1] <= 'Z' {
+			out[k+1] = tpl[k+1]
+		}
+	}
+	return string(out)
+}
+
 func vxInstantiate(tpl string) string {
 	out := ""
 	for k := 0; k < len(tpl); k++ {
@@ -132,6 +158,8 @@ func vxInstantiate(tpl string) string {
 				out += "\"" + vxName() + "\""
 			case 'S':
 				out += vxStrBody()
+			case 'I':
+				out += "\"" + vxIdentBody() + "\""
 			}
 			k++
 			continue
@@ -143,6 +171,9 @@ func vxInstantiate(tpl string) string {
 
 func VxC06_Templates() {
 	tpl := vxC06Templates[vx.Choice(len(vxC06Templates))]
+	if vx.Bool() {
+		tpl = vxLowerKeywords(tpl) // keywords as a user may type them: the tree keeps some of them in source case
+	}
 	sql := vxInstantiate(tpl)
 	vx.Notef("template=%q sql=%q", tpl, sql)
 	tree1, err := Parse(sql)
@@ -184,6 +215,8 @@ func vxAllFormatTexts() []string {
 					t += "\"nm\""
 				case 'S':
 					t += "s1"
+				case 'I':
+					t += "\"#x\""
 				}
 				k++
 				continue
@@ -191,6 +224,7 @@ func vxAllFormatTexts() []string {
 			t += string(tpl[k])
 		}
 		out = append(out, t)
+		out = append(out, strings.ToLower(t))
 	}
 	return out
 }
